@@ -282,6 +282,7 @@ package funnel
 //verif:func (*ProcessorTask).Do(t, ctx, b) (err)
 //verif:requires BInv(b) && slack(b) == 0
 //verif:call[ranges-inside-the-batch] (*ProcessorTask).markBatchRecords requires arg1 == b && 0 <= arg2 && arg2 + len(arg3) <= active(b) && BInv(b) && forall k in [0, len(arg3)): sameKind(arg3[k], arg3[0])
+//verif:loop 0 vars to, i
 //verif:loop 0 invariant BInv(b) && 0 - 1 <= i && i < to && to <= len(recsOut) && to <= active(b)
 //verif:loop 0 invariant (forall k in [i + 1, to): sameKind(recsOut[k], recsOut[i + 1])) && (0 <= i && i + 1 < to ==> sameKind(recsOut[i], recsOut[i + 1]))
 
